@@ -19,6 +19,21 @@ TInit == Init /\ l = 1 /\ bad = {}
 
 Got(e) == e.got
 
+\* the node paths of a tree, '/'-joined
+RECURSIVE TreePaths(_, _)
+TreePaths(t, prefix) ==
+  LET me == prefix \o t.name IN
+  {me} \cup UNION {TreePaths(t.kids[i], me \o <<"SL">>) : i \in 1..Len(t.kids)}
+
+\* a logged result agrees with a specified one; for "mkdir" the log lists what appeared in a fresh directory
+\* (in directory order): exactly the node paths, each once
+Agrees(x, g) ==
+  IF x.k = "mkdir"
+  THEN /\ g.k = "mkdir"
+       /\ {g.rows[i] : i \in 1..Len(g.rows)} = TreePaths(x.forest[1], <<>>)
+       /\ \A i, j \in 1..Len(g.rows) : g.rows[i] = g.rows[j] => i = j
+  ELSE x = g
+
 \* a node id the model does not know: an earlier Add returned a node it should not have created (that
 \* call has been flagged already); the call cannot be replayed, it is flagged too and skipped
 Unknown(e) == e.op \in {"Add", "Op"} /\ e.p > Len(store)
@@ -28,12 +43,12 @@ Step ==
   /\ LET e == Trace[l] IN
      IF Unknown(e) THEN UNCHANGED avars /\ bad' = bad \cup {<<l, "P">>}
      ELSE
-     /\ CASE e.op = "reset"   -> store' = <<>> /\ idx' = 0 /\ hist' = <<>> /\ res' = None /\ exp' = None   \* a new history
+     /\ CASE e.op = "reset"   -> store' = <<>> /\ idx' = 0 /\ hist' = <<>> /\ res' = None /\ exp' = None /\ iters' = <<>>   \* a new history
           [] e.op = "NewRoot" -> NewRoot(e.name)
           [] e.op = "Add"     -> Add(e.p, e.name)
           [] e.op = "Op"      -> Op(e.kind, e.p)
-     /\ bad' = bad \cup (IF e.op = "reset" \/ exp' = Got(e) THEN {} ELSE {<<l, "P">>})
-                   \cup (IF e.op = "reset" \/ res' = Got(e) THEN {} ELSE {<<l, "M">>})
+     /\ bad' = bad \cup (IF e.op = "reset" \/ Agrees(exp', Got(e)) THEN {} ELSE {<<l, "P">>})
+                   \cup (IF e.op = "reset" \/ Agrees(res', Got(e)) THEN {} ELSE {<<l, "M">>})
   /\ l' = l + 1
 
 Finish ==
